@@ -35,9 +35,9 @@ Definition poll_next (g : nat -> Z) (t : timer) : timer * option (Z * Z) :=
   else if t_time t =? 1 then (with_time t 0 (t_drawn t), Some (timer_interrupt t))
   else (with_time t (t_time t - 1) (t_drawn t), None).
 
-Lemma poll_ok g t : timer_ok g t -> poll g t = TOk (poll_next g t).
+Lemma poll_ok g t : timer_ok g t -> timer_poll g t = TOk (poll_next g t).
 Proof.
-  intros H. unfold poll, poll_next. destruct (negb (t_enabled t)); [reflexivity|].
+  intros H. unfold timer_poll, poll_next. destruct (negb (t_enabled t)); [reflexivity|].
   destruct (t_time t =? 0); [|destruct (t_time t =? 1); reflexivity].
   rewrite (reset_ok g t H). reflexivity.
 Qed.
@@ -56,19 +56,19 @@ Qed.
 Definition fired (f : option (Z * Z)) : bool := match f with Some _ => true | None => false end.
 
 Lemma poll_n_S g t n : timer_ok g t ->
-  poll_n g t (S n) =
-  match poll_n g (fst (poll_next g t)) n with
+  timer_poll_n g t (S n) =
+  match timer_poll_n g (fst (poll_next g t)) n with
   | TOk (l, t'') => TOk (fired (snd (poll_next g t)) :: l, t'')
   | TPanic => TPanic
   | TBadDraw => TBadDraw
   end.
 Proof.
-  intros H. cbn [poll_n]. rewrite (poll_ok g t H). destruct (poll_next g t) as [t' f]. reflexivity.
+  intros H. cbn [timer_poll_n]. rewrite (poll_ok g t H). destruct (poll_next g t) as [t' f]. reflexivity.
 Qed.
 
 (* polls never panic while the oracle keeps its contract, and keep range and enabled flag *)
 Lemma poll_n_total g : forall n t, timer_ok g t ->
-  exists l t', poll_n g t n = TOk (l, t') /\ t_range t' = t_range t /\ t_enabled t' = t_enabled t
+  exists l t', timer_poll_n g t n = TOk (l, t') /\ t_range t' = t_range t /\ t_enabled t' = t_enabled t
                /\ length l = n.
 Proof.
   induction n as [|n IH]; intros t H.
@@ -81,9 +81,9 @@ Proof.
 Qed.
 
 Lemma poll_n_app g : forall a b t, timer_ok g t ->
-  poll_n g t (a + b) =
-  match poll_n g t a with
-  | TOk (l1, t1) => match poll_n g t1 b with
+  timer_poll_n g t (a + b) =
+  match timer_poll_n g t a with
+  | TOk (l1, t1) => match timer_poll_n g t1 b with
                     | TOk (l2, t2) => TOk (l1 ++ l2, t2)
                     | TPanic => TPanic | TBadDraw => TBadDraw
                     end
@@ -91,11 +91,11 @@ Lemma poll_n_app g : forall a b t, timer_ok g t ->
   end.
 Proof.
   induction a as [|a IH]; intros b t H.
-  - cbn [Nat.add poll_n]. destruct (poll_n g t b) as [[l2 t2]| |]; reflexivity.
+  - cbn [Nat.add timer_poll_n]. destruct (timer_poll_n g t b) as [[l2 t2]| |]; reflexivity.
   - change (S a + b)%nat with (S (a + b)). rewrite !(poll_n_S g t _ H).
     rewrite IH by (eapply timer_ok_same_range; [apply poll_next_range|exact H]).
-    destruct (poll_n g (fst (poll_next g t)) a) as [[l1 t1]| |]; [|reflexivity|reflexivity].
-    destruct (poll_n g t1 b) as [[l2 t2]| |]; reflexivity.
+    destruct (timer_poll_n g (fst (poll_next g t)) a) as [[l1 t1]| |]; [|reflexivity|reflexivity].
+    destruct (timer_poll_n g t1 b) as [[l2 t2]| |]; reflexivity.
 Qed.
 
 (* ---- the gap statement ---- *)
@@ -106,7 +106,7 @@ Definition gap_inv (lo hi : Z) (seen : bool) (cur : Z) (t : timer) : Prop :=
 Lemma poll_n_gaps g r : forall n t seen cur,
   t_range t = r -> timer_ok g t -> t_enabled t = true ->
   gap_inv (range_lo r) (range_hi r) seen cur t ->
-  exists l t', poll_n g t n = TOk (l, t') /\
+  exists l t', timer_poll_n g t n = TOk (l, t') /\
                all_within (range_lo r) (range_hi r) (gaps_from seen cur l).
 Proof.
   induction n as [|n IH]; intros t seen cur Hr Hok Hen Hinv.
@@ -149,7 +149,7 @@ Qed.
 (* C34_gap: for every oracle within the range, every number of polls, from every state *)
 Lemma gap_within g t n :
   timer_ok g t -> t_enabled t = true ->
-  exists l t', poll_n g t n = TOk (l, t') /\
+  exists l t', timer_poll_n g t n = TOk (l, t') /\
                all_within (range_lo (t_range t)) (range_hi (t_range t)) (gaps l).
 Proof.
   intros Hok Hen. apply (poll_n_gaps g (t_range t) n t false 0); auto. intros H. discriminate H.
@@ -157,7 +157,7 @@ Qed.
 
 Lemma gap_exact g t n c :
   timer_ok g t -> t_enabled t = true -> range_lo (t_range t) = c -> range_hi (t_range t) = c ->
-  exists l t', poll_n g t n = TOk (l, t') /\ Forall (fun x => x = c) (gaps l).
+  exists l t', timer_poll_n g t n = TOk (l, t') /\ Forall (fun x => x = c) (gaps l).
 Proof.
   intros Hok Hen Hl Hh. destruct (gap_within g t n Hok Hen) as (l & t' & E & Hw).
   exists l, t'. split; [exact E|]. rewrite Hl, Hh in Hw.
@@ -166,26 +166,26 @@ Qed.
 
 (* ---- countdown: the gap IS the draw ---- *)
 Lemma countdown g : forall k t, t_enabled t = true -> t_time t = Z.of_nat (S k) ->
-  poll_n g t (S k) = TOk (repeat false k ++ [true], with_time t 0 (t_drawn t)).
+  timer_poll_n g t (S k) = TOk (repeat false k ++ [true], with_time t 0 (t_drawn t)).
 Proof.
   induction k as [|k IH]; intros t Hen Ht.
-  - cbn [poll_n]. unfold poll. rewrite Hen. cbn [negb]. rewrite Ht. reflexivity.
+  - cbn [timer_poll_n]. unfold timer_poll. rewrite Hen. cbn [negb]. rewrite Ht. reflexivity.
   - assert (E0 : t_time t =? 0 = false) by (apply Z.eqb_neq; lia).
     assert (E1 : t_time t =? 1 = false) by (apply Z.eqb_neq; lia).
-    change (poll_n g t (S (S k))) with
-      (match poll g t with
-       | TOk (t', f) => match poll_n g t' (S k) with
+    change (timer_poll_n g t (S (S k))) with
+      (match timer_poll g t with
+       | TOk (t', f) => match timer_poll_n g t' (S k) with
                         | TOk (l, t'') => TOk ((match f with Some _ => true | None => false end) :: l, t'')
                         | TPanic => TPanic | TBadDraw => TBadDraw end
        | TPanic => TPanic | TBadDraw => TBadDraw end).
-    unfold poll. rewrite Hen. cbn [negb]. rewrite E0, E1.
+    unfold timer_poll. rewrite Hen. cbn [negb]. rewrite E0, E1.
     rewrite (IH (with_time t (t_time t - 1) (t_drawn t))); [reflexivity|exact Hen|].
     change (t_time (with_time t (t_time t - 1) (t_drawn t))) with (t_time t - 1). lia.
 Qed.
 
 Lemma gap_is_draw g t :
   timer_ok g t -> t_enabled t = true -> t_time t = 0 ->
-  poll_n g t (S (Z.to_nat (g (t_drawn t)))) =
+  timer_poll_n g t (S (Z.to_nat (g (t_drawn t)))) =
   TOk (repeat false (Z.to_nat (g (t_drawn t))) ++ [true], with_time t 0 (S (t_drawn t))).
 Proof.
   intros Hok Hen Ht. pose proof (draw_bounds g t (t_drawn t) Hok) as Hd.
@@ -194,7 +194,7 @@ Proof.
   rewrite Ht. cbn [Z.eqb fst snd].
   set (d := g (t_drawn t)) in *. set (t1 := with_time t d (S (t_drawn t))).
   destruct (d =? 0) eqn:Ed.
-  - apply Z.eqb_eq in Ed. rewrite Ed. cbn [Z.to_nat poll_n repeat app fired].
+  - apply Z.eqb_eq in Ed. rewrite Ed. cbn [Z.to_nat timer_poll_n repeat app fired].
     unfold t1. rewrite Ed. reflexivity.
   - apply Z.eqb_neq in Ed.
     destruct (Z.to_nat d) as [|k] eqn:Ek; [lia|].
@@ -211,7 +211,7 @@ Qed.
 
 Lemma first_within g t :
   timer_ok g t -> t_enabled t = true -> 0 <= t_time t <= range_hi (t_range t) ->
-  exists l t', poll_n g t (Z.to_nat (range_hi (t_range t) + 1)) = TOk (l, t') /\
+  exists l t', timer_poll_n g t (Z.to_nat (range_hi (t_range t) + 1)) = TOk (l, t') /\
                exists k, first_fire l = Some k /\ 0 <= k <= range_hi (t_range t).
 Proof.
   intros Hok Hen Hb. set (hi := range_hi (t_range t)) in *.
@@ -237,18 +237,18 @@ Proof.
 Qed.
 
 (* ---- histories ---- *)
-Definition keeps_range (o : top) : Prop :=
+Definition keeps_range (o : timer_op) : Prop :=
   match o with OSetRange _ _ | OSetExact _ => False | _ => True end.
 
 Definition time_inv (t : timer) : Prop := 0 <= t_time t <= range_hi (t_range t).
 
 Lemma step_keeps g t o : timer_ok g t -> time_inv t -> keeps_range o ->
-  exists t' f, step g t o = TOk (t', f) /\ t_range t' = t_range t /\ time_inv t'.
+  exists t' f, timer_step g t o = TOk (t', f) /\ t_range t' = t_range t /\ time_inv t'.
 Proof.
   intros Hok Hinv Hk. pose proof (draw_bounds g t (t_drawn t) Hok) as Hd.
   assert (Hlo : 0 <= range_lo (t_range t)) by (apply Hok).
   unfold time_inv in *.
-  destruct o; cbn [step keeps_range] in *; try contradiction.
+  destruct o; cbn [timer_step keeps_range] in *; try contradiction.
   - rewrite (poll_ok g t Hok). eexists _, _. split; [apply f_equal, surjective_pairing|].
     split; [apply poll_next_range|]. rewrite poll_next_range.
     unfold poll_next. destruct (negb (t_enabled t)); [exact Hinv|].
@@ -259,20 +259,20 @@ Proof.
   - eexists _, _. split; [reflexivity|]. split; [reflexivity|exact Hinv].
   - rewrite (reset_ok g t Hok). eexists _, _. split; [reflexivity|]. split; [reflexivity|].
     cbn [t_time t_range with_time]. lia.
-  - unfold io_reset. rewrite (reset_ok g t Hok). eexists _, _. split; [reflexivity|]. split; [reflexivity|].
+  - unfold timer_io_reset. rewrite (reset_ok g t Hok). eexists _, _. split; [reflexivity|]. split; [reflexivity|].
     cbn [t_time t_range with_time]. lia.
   - eexists _, _. split; [reflexivity|]. split; [reflexivity|exact Hinv].
   - eexists _, _. split; [reflexivity|]. split; [reflexivity|exact Hinv].
 Qed.
 
 Lemma run_state_keeps g : forall ops t, timer_ok g t -> time_inv t -> Forall keeps_range ops ->
-  t_range (run_state g t ops) = t_range t /\ time_inv (run_state g t ops).
+  t_range (timer_run_state g t ops) = t_range t /\ time_inv (timer_run_state g t ops).
 Proof.
   induction ops as [|o r IH]; intros t Hok Hinv Hall.
   - split; [reflexivity|exact Hinv].
   - inversion Hall as [|? ? Ho Hr]; subst.
     destruct (step_keeps g t o Hok Hinv Ho) as (t' & f & E & Hrg & Hi).
-    cbn [run_state]. rewrite E.
+    cbn [timer_run_state]. rewrite E.
     destruct (IH t') as [H1 H2]; auto.
     { eapply timer_ok_same_range; [exact Hrg|exact Hok]. }
     split; [congruence|exact H2].
@@ -293,8 +293,8 @@ Qed.
 (* first interrupt after creation + any history that keeps the range and leaves the timer enabled *)
 Lemma first_after_history g s e v p t0 ops :
   timer_new g s e v p = TOk t0 -> 0 <= range_lo (t_range t0) -> draws_ok g (t_range t0) ->
-  Forall keeps_range ops -> t_enabled (run_state g t0 ops) = true ->
-  exists l t', poll_n g (run_state g t0 ops) (Z.to_nat (range_hi (t_range t0) + 1)) = TOk (l, t') /\
+  Forall keeps_range ops -> t_enabled (timer_run_state g t0 ops) = true ->
+  exists l t', timer_poll_n g (timer_run_state g t0 ops) (Z.to_nat (range_hi (t_range t0) + 1)) = TOk (l, t') /\
                exists k, first_fire l = Some k /\ 0 <= k <= range_hi (t_range t0).
 Proof.
   intros Hnew Hlo Hd Hall Hen.
@@ -307,24 +307,24 @@ Proof.
 Qed.
 
 (* ---- a disabled timer ---- *)
-Definition quiet (o : obs) : Prop := match o with ObsOk f _ _ => f = None | _ => True end.
+Definition quiet (o : timer_obs) : Prop := match o with ObsOk f _ _ => f = None | _ => True end.
 
-Lemma disabled_quiet g : forall ops t, t_enabled t = false -> ~ In OEnable ops -> Forall quiet (run g t ops).
+Lemma disabled_quiet g : forall ops t, t_enabled t = false -> ~ In OEnable ops -> Forall quiet (timer_run g t ops).
 Proof.
   induction ops as [|o r IH]; intros t Hd Hn; [constructor|].
   assert (Hr : ~ In OEnable r) by (intros H; apply Hn; right; exact H).
   assert (Ho : o <> OEnable) by (intros ->; apply Hn; left; reflexivity).
-  cbn [run].
-  destruct (step g t o) as [[t' f]| |] eqn:E.
+  cbn [timer_run].
+  destruct (timer_step g t o) as [[t' f]| |] eqn:E.
   - assert (f = None /\ t_enabled t' = false) as [-> Hd'].
-    { destruct o; cbn [step] in E.
-      - unfold poll in E. rewrite Hd in E. cbn [negb] in E. injection E as <- <-. auto.
+    { destruct o; cbn [timer_step] in E.
+      - unfold timer_poll in E. rewrite Hd in E. cbn [negb] in E. injection E as <- <-. auto.
       - contradiction.
       - injection E as <- <-. auto.
       - destruct (reset_remaining g t) as [t1| |] eqn:E1; try discriminate. injection E as <- <-.
         unfold reset_remaining in E1. destruct (gen_time g (t_range t) (t_drawn t)) as [[d k]| |]; try discriminate.
         injection E1 as <-. auto.
-      - unfold io_reset in E. destruct (reset_remaining g t) as [t1| |] eqn:E1; try discriminate. injection E as <- <-.
+      - unfold timer_io_reset in E. destruct (reset_remaining g t) as [t1| |] eqn:E1; try discriminate. injection E as <- <-.
         unfold reset_remaining in E1. destruct (gen_time g (t_range t) (t_drawn t)) as [[d k]| |]; try discriminate.
         injection E1 as <-. auto.
       - unfold set_range in E. destruct (srange_new s e) as [r1| |]; try discriminate. injection E as <- <-. auto.
@@ -338,23 +338,23 @@ Proof.
 Qed.
 
 (* ---- the observations are a function of configuration, history and draws ---- *)
-Lemma step_ext g g' t o : g (t_drawn t) = g' (t_drawn t) -> step g t o = step g' t o.
+Lemma step_ext g g' t o : g (t_drawn t) = g' (t_drawn t) -> timer_step g t o = timer_step g' t o.
 Proof.
   intros E.
   assert (R : reset_remaining g t = reset_remaining g' t) by (unfold reset_remaining, gen_time; rewrite E; reflexivity).
-  destruct o; cbn [step]; try reflexivity.
-  - unfold poll. rewrite R. reflexivity.
+  destruct o; cbn [timer_step]; try reflexivity.
+  - unfold timer_poll. rewrite R. reflexivity.
   - rewrite R. reflexivity.
-  - unfold io_reset. rewrite R. reflexivity.
+  - unfold timer_io_reset. rewrite R. reflexivity.
 Qed.
 
-Lemma step_drawn g t o t' f : step g t o = TOk (t', f) -> (t_drawn t' <= S (t_drawn t))%nat.
+Lemma step_drawn g t o t' f : timer_step g t o = TOk (t', f) -> (t_drawn t' <= S (t_drawn t))%nat.
 Proof.
   assert (R : forall t1, reset_remaining g t = TOk t1 -> t_drawn t1 = S (t_drawn t)).
   { intros t1. unfold reset_remaining, gen_time. destruct (range_nonempty (t_range t)); [|discriminate].
     destruct (in_range (t_range t) (g (t_drawn t))); [|discriminate]. intros H. injection H as <-. reflexivity. }
-  destruct o; cbn [step]; intros E.
-  - unfold poll in E. destruct (negb (t_enabled t)); [injection E as <- <-; lia|].
+  destruct o; cbn [timer_step]; intros E.
+  - unfold timer_poll in E. destruct (negb (t_enabled t)); [injection E as <- <-; lia|].
     destruct (t_time t =? 0).
     + destruct (reset_remaining g t) as [t1| |] eqn:E1; try discriminate. injection E as <- <-.
       rewrite (R t1 eq_refl). lia.
@@ -362,7 +362,7 @@ Proof.
   - injection E as <- <-. cbn. lia.
   - injection E as <- <-. cbn. lia.
   - destruct (reset_remaining g t) as [t1| |] eqn:E1; try discriminate. injection E as <- <-. rewrite (R t1 eq_refl). lia.
-  - unfold io_reset in E. destruct (reset_remaining g t) as [t1| |] eqn:E1; try discriminate. injection E as <- <-. rewrite (R t1 eq_refl). lia.
+  - unfold timer_io_reset in E. destruct (reset_remaining g t) as [t1| |] eqn:E1; try discriminate. injection E as <- <-. rewrite (R t1 eq_refl). lia.
   - unfold set_range in E. destruct (srange_new s e) as [r1| |]; try discriminate. injection E as <- <-. cbn. lia.
   - unfold set_exact, set_range in E. destruct (srange_new (BIncl n) (BIncl n)) as [r1| |]; try discriminate. injection E as <- <-. cbn. lia.
   - injection E as <- <-. cbn. lia.
@@ -370,21 +370,21 @@ Proof.
 Qed.
 
 Lemma run_ext g g' : forall ops t,
-  (forall k, (k < t_drawn t + length ops)%nat -> g k = g' k) -> run g t ops = run g' t ops.
+  (forall k, (k < t_drawn t + length ops)%nat -> g k = g' k) -> timer_run g t ops = timer_run g' t ops.
 Proof.
   induction ops as [|o r IH]; intros t H; [reflexivity|].
-  cbn [run]. cbn [length] in H.
+  cbn [timer_run]. cbn [length] in H.
   rewrite <- (step_ext g g' t o) by (apply H; lia).
-  destruct (step g t o) as [[t' f]| |] eqn:E.
+  destruct (timer_step g t o) as [[t' f]| |] eqn:E.
   - f_equal. apply IH. intros k Hk. apply H. pose proof (step_drawn g t o t' f E). lia.
   - f_equal. apply IH. intros k Hk. apply H. lia.
   - reflexivity.
 Qed.
 
 (* creation + history: what is observed from a timer made with the same arguments *)
-Definition observe (g : nat -> Z) (s e : bound) (v p : Z) (ops : list top) : option (Z * list obs) :=
+Definition observe (g : nat -> Z) (s e : bound) (v p : Z) (ops : list timer_op) : option (Z * list timer_obs) :=
   match timer_new g s e v p with
-  | TOk t0 => Some (t_time t0, run g t0 ops)
+  | TOk t0 => Some (t_time t0, timer_run g t0 ops)
   | _ => None
   end.
 
